@@ -51,6 +51,20 @@ static const char *c16_monitor(kdump_ctx_t *ctx, kdump_status st)
 	if ((int)st < 0 || (int)st > KDUMP_ERR_ADDRXLAT) return " C16:undocumented-status";
 	if (st != KDUMP_OK && (!e || !*e)) return " C16:empty-message";
 	if (st == KDUMP_OK && e && *e) return " C16:stale-message";
+	if (e && *e) {
+		/* the chain is built by prepending; no link of it may appear twice */
+		static char buf[4096]; char *parts[64]; int n = 0, i, j; char *p, *q;
+		strncpy(buf, e, sizeof buf - 1); buf[sizeof buf - 1] = 0;
+		for (p = buf; p && n < 64; p = q) {
+			q = strstr(p, ": ");
+			if (q) { *q = 0; q += 2; }
+			parts[n++] = p;
+		}
+		for (i = 0; i < n; ++i)
+			for (j = i + 1; j < n; ++j)
+				if (strlen(parts[i]) > 8 && !strcmp(parts[i], parts[j]))
+					return " C16:duplicate-message";
+	}
 	return "";
 }
 #endif
